@@ -6,6 +6,8 @@ import SquidModel.Properties.C45
 #print axioms SquidModel.C45.accepted_configuration_is_closed
 #print axioms SquidModel.C45.undefined_acl_is_refused
 #print axioms SquidModel.C45.no_usable_rule_denies_everything
+#print axioms SquidModel.C45.dst_verdict_independent_of_cache
+#print axioms SquidModel.C45.dstdomain_verdict_independent_of_cache
 #print axioms SquidModel.C45.registered_method_names_are_themselves
 #print axioms SquidModel.C45.extension_method_is_itself
 #print axioms SquidModel.C45.config_line_words
